@@ -38,8 +38,17 @@ def run(tier):
         IC.verify_integrate(src, reg, PID + "/after-a-failure", callbacks=1, status0=ExcVal("FailedIntegration", tag="earlier-failure"), drop_status_post=True)
         for implicit, adaptive in ((False, True), (True, False), (False, False)):
             R.under_contract(intcall.check_rk_call_faults(reg, src, PID, implicit, adaptive))
+        # faults inside the event block (an event function raises; the re-integration to a terminal event fails): the exceptional
+        # post-condition includes the representation invariant of the interpolants -- dense output kept: exactly one piece per recorded
+        # step, in both run directions -- so that the next call may start from the failed state
+        from . import integrate_events as IE
+        reg.fail_fast = (3, 25)
+        for d in (1, -1):
+            IE.verify_integrate_events(src, reg, PID + "/" + IE.config_label(1, (True,), d, 0, True), n=1, terminals=(True,), direction=d, dense=True)
     except Unsupported as e:
         reg.undecided(PID + "/executor/unsupported", "unsupported", "executor", str(e))
+    except solver.FailFast as e:
+        R.notes.append(str(e))
     nat = None
     try:
         nat = common.run_native("monitor/native_c12.py", dict(tier=tier), timeout=2400)
